@@ -48,6 +48,7 @@ ASSUMPTIONS = [
 ]
 
 ROW_NAMES = [n for n in NAMES if RECIPES[n].nsrc >= 1
+             and not RECIPES[n].fails
              and (not RECIPES[n].group.startswith('io.')
                   or n.startswith('tee'))
              and RECIPES[n].group != 'util.counting'
@@ -793,8 +794,22 @@ def run_case(case):
                 why = type(not_a_harness_bug(ex)).__name__
             if why is not None:
                 gc.collect()
+                if kind == 'map':
+                    # a request that ends in an exception (a value the
+                    # operator rejects) is lazy too: on the long source the
+                    # same request must not get anywhere near the tail
+                    try:
+                        _one_length(e, case, case['L2'], log, sb, poison)
+                    except PoisonedTail as ex:
+                        raise _Bad('poisoned-tail-reached',
+                                   '%s: a request that raises %s on the '
+                                   'short source: %s' % (label, why, ex))
+                    except Exception:
+                        pass
+                    probes['raising-request-on-long-source'] = 1
+                    gc.collect()
                 return outcome('trivial', digest=log.hexdigest(),
-                               nontrivial=False,
+                               nontrivial=False, probes=probes,
                                extra={'group': group, 'why': why})
             if kind is None:
                 # non-streaming: only the construction clause applies
